@@ -216,7 +216,7 @@ def self_test(ctx, helper):
         raise Inconclusive("self-test: deleting a zero-reference function and a write-only variable should type-check: %s" % d1)
     if not d2.get("errors"):
         raise Inconclusive("self-test: go/types accepted the deletion of a function that is still called")
-    neg = vlib.run_tlc(ctx, "MCUnused", "MCUnused_negdel.cfg", workers=4, timeout=1200)
+    neg = vlib.run_tlc(ctx, "MCUnused", "MCUnused_negdel.cfg", workers=2, timeout=1200)
     if neg.violated != "NegSingletonsSafe":
         raise Inconclusive("negative control: TLC did not refute 'every single object can be deleted' (%s)" % neg.violated)
     return 2
@@ -252,7 +252,7 @@ def run(ctx):
     lap(ctx, "self_test")
     cases, gen_runs = ug.generate(ctx)
     lap(ctx, "tlc_generation")
-    chosen = ug.select(ctx, cases, 400 if ctx.quick else 10000)
+    chosen = ug.select(ctx, cases, ug.cap(400 if ctx.quick else 10000))
     stats, nontrivial, tr, disagreements, sample_src = check_graphs(ctx, helper, chosen)
     lap(ctx, "graphs")
     corp = run_corpora(ctx, helper)
